@@ -344,12 +344,17 @@ static int h_dump_command(const char* cmd, int nt, char** tok) {
         int isc = !strcmp(cmd, "failcount");
         long k = isc ? -1 : atol(tok[1]);
         buf_t b = buf_from_hex(tok[isc ? 1 : 2]);
-        g_alloc_no = 0; g_fail_one = -1; g_fail_from = -1;
+        g_alloc_no = 0; g_fail_one = -1; g_fail_from = -1; g_nlibc = 0;
         if (!strcmp(cmd, "failat")) g_fail_one = k;
         if (!strcmp(cmd, "failfrom")) g_fail_from = k;
         g_fail_armed = 1;
         edn_result_t r = b.n ? edn_read(b.p, b.n) : edn_read("", 0);
-        if (isc) { g_fail_armed = 0; printf("%ld ", g_alloc_no); }
+        if (isc) {
+            /* count, then the numbers of the requests that went to libc (block growth, scratch buffers, tables) */
+            g_fail_armed = 0; printf("%ld", g_alloc_no);
+            for (int i = 0; i < g_nlibc; i++) printf("%c%ld", i ? ',' : '/', g_libc_idx[i]);
+            printf(" ");
+        }
         g_ncalls = 0;
         /* the dump calls the lazy accessors (string get, bigint get) under the same schedule */
         if (r.value && r.error == EDN_OK) { printf("OK "); dump_value(r.value); printf("\n"); }
